@@ -685,7 +685,111 @@ pub fn c16_history(h: &History, rep: &mut Report) {
     }
 }
 
+/// Variant in which the primary's last output and the enter sequence arrive in ONE call, so that a
+/// trim of the primary is still pending while it is parked: nothing executed during the excursion
+/// may touch the parked primary (text(), its lines via the hook), and what is handed out when the
+/// excursion ends plus what is retained must be exactly what was parked.
+pub fn c16_merged_history(h: &History, rep: &mut Report) {
+    let (merged_at, leave_at) = match (h.meta_get("merged_at"), h.meta_get("leave_at")) {
+        (Some(a), Some(b)) if a < b && b < h.calls.len() => (a, b),
+        _ => return,
+    };
+    rep.evaluations += 1;
+    let hh = h.clone();
+    let res = guard(h, rep, |rep| {
+        let mut vt = hh.build();
+        for c in &hh.calls[..=merged_at] {
+            drop(apply(&mut vt, c, Handling::Consume));
+        }
+        if !vt.verif_state().alternate_active {
+            return None; // the generated text contained something that left again; not this variant
+        }
+        let t0 = vt.text();
+        let p0: Vec<MLine> = vt.verif_other_lines().iter().map(MLine::of).collect();
+        let pending = vt.verif_state().other_buffer.trim_needed && hh.limit.map_or(false, |l| p0.len() > hh.rows + l + l / 10);
+        if pending {
+            rep.count("merged_entries_with_a_trim_pending_on_the_parked_primary", 1);
+        }
+        for (i, c) in hh.calls[merged_at + 1..leave_at].iter().enumerate() {
+            let out = apply(&mut vt, c, Handling::Consume);
+            if !out.drained.is_empty() {
+                return Some((merged_at + 2 + i, format!("{} scrollback lines handed out while the alternate screen is showing", out.drained.len())));
+            }
+            if vt.text() != t0 {
+                return Some((merged_at + 2 + i, format!("text() of the primary changed during the excursion (call {:?}): {} lines before, {} now", c, t0.len(), vt.text().len())));
+            }
+            let p: Vec<MLine> = vt.verif_other_lines().iter().map(MLine::of).collect();
+            if let Some(d) = diff_lines("parked primary", &p0, &p) {
+                return Some((merged_at + 2 + i, format!("the parked primary changed during the excursion (call {:?}): {}", c, d)));
+            }
+        }
+        let out = apply(&mut vt, &hh.calls[leave_at], Handling::Consume);
+        if vt.verif_state().alternate_active {
+            return Some((leave_at + 1, "still on the alternate screen after the leave sequence".to_string()));
+        }
+        let mut all = out.drained.clone();
+        all.extend(vt.lines().iter().map(MLine::of));
+        if let Some(d) = diff_lines("handed out at return + retained vs parked primary", &all, &p0) {
+            return Some((leave_at + 1, d));
+        }
+        rep.key(mix(0x16E, (hh.limit.map(|l| l as u64 + 1).unwrap_or(0)) * 4 + (pending as u64) * 2 + (out.drained.is_empty() as u64)));
+        None
+    });
+    if let Some((n, msg)) = res {
+        let mut cut = h.clone();
+        cut.calls.truncate(n);
+        rep.violation("C16", msg, &cut);
+    }
+}
+
 pub fn work_c16(ctx: &Ctx, rep: &mut Report) {
+    // merged-entry variant (pending trim while parked)
+    let nm = ctx.scale(20_000, 300_000);
+    let mprof = Profile::general().with(T_ALT, 0).with(T_RIS, 0).resizes(0).length((0, 3), (1, 5)).size(10, 5).limits(gen::LIMITS_FINITE).big(0);
+    let eprof2 = excursion_profile().big(0);
+    for u in ctx.units(nm) {
+        let mut r = Rng::derive(ctx.seed, &[0xC16, 2, u as u64]);
+        let mut h = gen::history(&mut r, &mprof);
+        let limit = h.limit.unwrap_or(0);
+        let n = limit + limit / 8 + h.rows + r.range(0, 6);
+        let mut s = String::new();
+        for k in 0..n {
+            s.push_str(&format!("l{}\r\n", k % 10));
+        }
+        s.push_str(&format!("\x18\x1b[?{}h", r.pick(&["47", "1047", "1049"])));
+        let merged_at = h.calls.len();
+        if r.chance(1, 2) {
+            h.calls.push(Call::FeedStr(s));
+        } else {
+            // scrolled through feed() (never trims), entered in a later call: also a pending trim
+            let cut = s.len() - 9;
+            h.calls.push(Call::Feed(s[..cut].to_string()));
+            h.calls.push(Call::Feed(s[cut..].to_string()));
+        }
+        let merged_at = if let Some(Call::Feed(_)) = h.calls.last() { merged_at + 1 } else { merged_at };
+        let mut filter = crate::model::parser::PModel::new();
+        for c in gen::history(&mut r, &eprof2).calls {
+            match &c {
+                Call::FeedStr(x) | Call::Feed(x) if !leave_free(&mut filter, x) => {
+                    filter = crate::model::parser::PModel::new();
+                    h.calls.push(Call::FeedStr("\x18".into()));
+                }
+                Call::Resize(..) => {}
+                _ => h.calls.push(c),
+            }
+        }
+        // a same-size resize is a collecting call too
+        if r.chance(1, 3) {
+            h.calls.push(Call::Resize(h.cols, h.rows));
+        }
+        h.meta.push(("merged_at".into(), merged_at));
+        h.meta.push(("leave_at".into(), h.calls.len()));
+        h.calls.push(Call::FeedStr(format!("\x18\x1b[?{}l", r.pick(&["47", "1047", "1049"]))));
+        if u < 1 {
+            rep.sample(format!("merged entry: {}", h.brief()));
+        }
+        c16_merged_history(&h, rep);
+    }
     let n = ctx.scale(150_000, 4_000_000);
     let pprof = Profile::general().with(T_ALT, 0).with(T_RIS, 0).with(T_TEXT, 40).resizes(3).length((1, 6), (1, 7)).size(12, 7).limits(LIMITS_HALF_NONE);
     let eprof = excursion_profile();
